@@ -745,6 +745,9 @@ class SugarPeer:
 # --------------------------------------------------------------------------------------
 
 
+import subprocess as _real_subprocess
+
+
 class FakeCompleted:
     def __init__(self, stdout):
         self.stdout = stdout
@@ -757,8 +760,8 @@ class FakeSubprocessModule:
     PIPE = -1
     DEVNULL = -3
 
-    class TimeoutExpired(Exception):
-        pass
+    # the real exception class: library code anywhere (not only _subproc) may name subprocess.TimeoutExpired
+    TimeoutExpired = _real_subprocess.TimeoutExpired
 
     def __init__(self, peer, recorder=None):
         self.peer = peer
@@ -801,7 +804,7 @@ class FakeSubprocessModule:
                     # a stalled solver: the deadline passes without a reply
                     mod.peer.result.hit("fault:solver_stalled_until_timeout")
                     mod.stalls_fired += 1
-                    raise mod.TimeoutExpired()
+                    raise mod.TimeoutExpired(list(args), timeout)
                 reply = mod.peer.respond(mod._to_text(data), "subprocess:" + str(args[0]))
                 if mod._text_mode(kw):
                     return reply, ""
